@@ -361,8 +361,14 @@ def check_digits(res, facts, tier):
                 roles["count"] = i
             elif op == A(1) or (isinstance(op, tuple) and op[0] in ("arg", "call")):
                 roles.setdefault("scalar", i)
-    if set(roles) >= {"w", "mask", "radix", "carry", "count", "scalar"}:
-        rule.ok(key, "captures: w, scalar, carry = 0, window_mask = (1 << w) - 1, radix = 1 << w, digits_count = ceil(num_bits / w)", par.loc)
+    # radix = 1 << w may be captured itself, or only through radix / 2 (a hoisted half-radix)
+    halves = []
+    if isinstance(env_t, tuple) and env_t[0] == "agg":
+        for i, op in enumerate(env_t[2]):
+            if op in (("bin", "Div", radix, 2), ("bin", "Shr", radix, 1), ("bin", "Shl", 1, ("bin", "Sub", w_t, 1))):
+                halves.append(i)
+    if set(roles) >= {"w", "mask", "carry", "count", "scalar"} and ("radix" in roles or halves):
+        rule.ok(key, "captures: w, scalar, carry = 0, window_mask = (1 << w) - 1, radix = 1 << w (or radix / 2), digits_count = ceil(num_bits / w)", par.loc)
     else:
         rule.bad(key, "closure environment is %s: expected w, the scalar, carry = 0, (1 << w) - 1, 1 << w and ceil(num_bits / w) (recognised: %s)" % (show(env_t) if env_t else None, sorted(roles)), par.loc)
         return
@@ -391,7 +397,11 @@ def check_digits(res, facts, tier):
             for i in range(count):
                 n_cases += 1
                 fields = {roles["w"]: w, roles["scalar"]: BI.Ref(BI.Slice([BI.BV.word(k) for k in range(nl)])), roles["carry"]: 0,
-                          roles["mask"]: (1 << w) - 1, roles["radix"]: 1 << w, roles["count"]: count}
+                          roles["mask"]: (1 << w) - 1, roles["count"]: count}
+                if "radix" in roles:
+                    fields[roles["radix"]] = 1 << w
+                for hi_ in halves:
+                    fields[hi_] = (1 << w) // 2
                 # any further capture: evaluate its defining integer expression from the parent
                 from rules.c01 import ieval
                 scal_t = env_t[2][roles["scalar"]]
@@ -439,8 +449,11 @@ def check_digits(res, facts, tier):
     if coef is None:
         problems.append("coef = carry + (bit_buf & window_mask) not found")
     else:
-        half = ("bin", "Div", U(roles["radix"]), 2)
-        newc = ("bin", "Shr", ("bin", "Add", coef, half), U(roles["w"]))
+        half_forms = [U(h_) for h_ in halves]
+        if "radix" in roles:
+            half_forms += [("bin", "Div", U(roles["radix"]), 2), ("bin", "Shr", U(roles["radix"]), 1)]
+        newcs = [("bin", "Shr", ("bin", "Add", coef, hf), U(roles["w"])) for hf in half_forms]
+        newc = newcs[0] if newcs else None
         stores = []
         for bi, si, s in clo.stmts():
             if "d" in s:
@@ -452,7 +465,7 @@ def check_digits(res, facts, tier):
                     elif rr["k"] == "bin":
                         from rules.c07 import norm
                         stores.append(norm(("bin", rr["op"], DF.expr(clo, rr["a"], depth=40), DF.expr(clo, rr["b"], depth=40))))
-        if stores != [newc]:
+        if not (len(stores) == 1 and stores[0] in newcs):
             problems.append("carry update is %s, expected (coef + radix/2) >> w" % [show(x)[:120] for x in stores])
         # digit = coef - (carry' << w); MIR reads the updated capture, i.e. the same place
         subs = []
